@@ -119,6 +119,9 @@ func genMount(t *rapid.T) copyx.Case {
 			}
 		}
 		c.Faults = []inst.Fault{{Side: "cb", Op: op, Node: n, When: "before", Kind: "error"}}
+	} else if rapid.IntRange(0, 2).Draw(t, "noOnMounted") != 1 {
+		// the caller is not interested in mounts: OnMounted stays nil
+		c.NoOnMounted = true
 	}
 	return c
 }
@@ -314,7 +317,7 @@ func runMount(c copyx.Case) (res vt.Result, fail *vt.Fail) {
 			return res, vt.Failf("C04/postcopy-without-transfer", "node %d got PostCopy but %d uploads of it completed (mounts: %d)", id, l.put201+l.manPut, l.mount201)
 		}
 		if out.Err == nil {
-			if l.mount201 == 1 && len(l.mounted) != 1 {
+			if l.mount201 == 1 && len(l.mounted) != 1 && !c.NoOnMounted {
 				return res, vt.Failf("C04/mounted-without-onmounted", "node %d was mounted but got %d OnMounted calls on a successful copy", id, len(l.mounted))
 			}
 			if l.put201+l.manPut == 1 && (len(l.post) != 1 || len(l.pre) != 1) {
@@ -338,6 +341,9 @@ func runMount(c copyx.Case) (res vt.Result, fail *vt.Fail) {
 					term = &cl.mounted[0]
 				case cl != nil && len(cl.skipped) > 0:
 					term = &cl.skipped[0]
+				}
+				if term == nil && c.NoOnMounted && cl != nil && cl.mount201 == 1 {
+					continue // mounted, and nobody asked to be told
 				}
 				if term == nil {
 					return res, vt.Failf("C04/postcopy-without-successor-terminal", "node %d got PostCopy but its %s successor %d got none of PostCopy, OnMounted, OnCopySkipped", id, ed.Role, ed.To)
